@@ -265,7 +265,9 @@ pub mod fs {
     #[verifier::external_body]
     pub fn metadata<P: AsRef<Path>>(p: P, Tracked(w): Tracked<&mut World>) -> (r: io::Result<Metadata>)
         ensures *final(w) == *old(w),
-                r matches Ok(m) ==> path_kind(p) is Data && old(w).data.contains_key(path_id(p)) && m.spec_len() >= old(w).data[path_id(p)].size,
+                // the length on disk is the logical size, plus a partial record if a failed append left one
+                r matches Ok(m) ==> path_kind(p) is Data && old(w).data.contains_key(path_id(p)) && m.spec_len() >= old(w).data[path_id(p)].size
+                    && (!old(w).data[path_id(p)].torn ==> m.spec_len() == old(w).data[path_id(p)].size),
     { unimplemented!() }
 
     /// unlink: removes one whole file, or fails leaving everything as it was
